@@ -115,6 +115,8 @@ impl StdPathMetaLayout {
     pub const MAX_SEGMENT_HOPS: usize = 63;
     /// Maximum total hops across all segments CurrHF field can represent
     pub const MAX_TOTAL_HOPS: usize = 63;
+    /// Largest hop field index the 6 bit CurrHF field can hold
+    pub const MAX_CURR_HOP_FIELD: usize = 63;
 }
 impl StdPathMetaLayout {
     /// Returns annotations for the common header fields
